@@ -1,5 +1,7 @@
+mod gen;
 mod math;
 mod num;
+mod world;
 
 use std::fs::File;
 use std::io::{BufWriter, Write};
@@ -25,6 +27,27 @@ fn main() {
             let c = math::run(seed, n, &kinds, &mut out).expect("write");
             out.flush().unwrap();
             eprintln!("math: {} events", c);
+        }
+        "world" => {
+            let driver = arg(&args, "--driver").unwrap_or("random").to_string();
+            let behaviours: usize = arg(&args, "--behaviours").and_then(|s| s.parse().ok()).unwrap_or(1);
+            let steps: usize = arg(&args, "--steps").and_then(|s| s.parse().ok()).unwrap_or(40);
+            let c = gen::run(&driver, seed, behaviours, steps, &mut out);
+            out.flush().unwrap();
+            eprintln!("world/{}: {} events", driver, c);
+        }
+        "scenario" => {
+            // input: one scenario per line ({"tag":..,"setup":..,"ops":[..]}); output: trace events
+            let inp = arg(&args, "--in").expect("--in FILE");
+            let text = std::fs::read_to_string(inp).expect("read input");
+            let mut total = 0;
+            for (i, line) in text.lines().filter(|l| !l.trim().is_empty()).enumerate() {
+                let sc: serde_json::Value = serde_json::from_str(line).expect("json");
+                let tag = sc["tag"].as_str().map(|s| s.to_string()).unwrap_or(format!("sc{}", i));
+                total += world::run_scenario(&sc, &mut out, &tag).expect("write");
+            }
+            out.flush().unwrap();
+            eprintln!("scenario: {} events", total);
         }
         "replay-math" => {
             // input: NDJSON of events (each with "k" and "args"); output: the re-executed events
